@@ -119,6 +119,17 @@ Catalogue == <<
   L("dom_exists_var", Hy("exists", "x", "S", Var("x")), S),
   L("dom_exists_and", Hy("exists", "x", "S", And(Var("x"), T)), And(S, T)),
   L("dom_forall_imp", Hy("forall", "x", "S", Bi("imp", Var("x"), T)), Or(Not(S), T)),
+  \* two variables: quantifiers commute, unused quantifiers vanish, a binder under a quantifier of the same state
+  L("comm_exists", Hy("exists", "x", "", Hy("exists", "y", "", And(Hy("jump", "x", "", Un("EX", Var("y"))), Hy("jump", "y", "", S)))),
+                   Hy("exists", "y", "", Hy("exists", "x", "", And(Hy("jump", "x", "", Un("EX", Var("y"))), Hy("jump", "y", "", S))))),
+  L("comm_forall", Hy("forall", "x", "", Hy("forall", "y", "", Or(Hy("jump", "x", "", Un("AX", Var("y"))), Hy("jump", "y", "", S)))),
+                   Hy("forall", "y", "", Hy("forall", "x", "", Or(Hy("jump", "x", "", Un("AX", Var("y"))), Hy("jump", "y", "", S))))),
+  L("exists_bind", Hy("exists", "x", "", Hy("bind", "y", "", And(Var("x"), Un("EX", Var("y"))))),
+                   Hy("bind", "y", "", Un("EX", Var("y")))),
+  L("unused_exists", Hy("exists", "x", "", Hy("exists", "y", "", Hy("jump", "y", "", Un("EF", T)))),
+                     Hy("exists", "y", "", Hy("jump", "y", "", Un("EF", T)))),
+  L("dom_comm_exists", Hy("exists", "x", "S", Hy("exists", "y", "T", Hy("jump", "x", "", Un("EX", Var("y"))))),
+                       Hy("exists", "y", "T", Hy("exists", "x", "S", Hy("jump", "x", "", Un("EX", Var("y")))))),
   \* the optimised patterns against logically identical formulae
   L("pat_attractor", Hy("bind", "x", "", Un("AG", Un("EF", Var("x")))),
                      Hy("bind", "x", "", Un("AG", Un("EF", And(Var("x"), Var("x")))))),
